@@ -33,3 +33,31 @@ Qed.
 
 Lemma pow2_mul (x : R) : x ^ 2 = x * x.
 Proof. ring. Qed.
+
+(** ** extended reals: the half sizes of an aperture (the constructor default is +inf) *)
+Inductive xR := XFin (r : R) | XPInf | XNInf.
+Inductive apshape := Rectangular | Elliptical.
+
+Definition xopp (m : xR) : xR := match m with XFin r => XFin (- r) | XPInf => XNInf | XNInf => XPInf end.
+(* m ** n for a literal n >= 1 (IEEE: (+inf)^n = +inf, (-inf)^n = +-inf by parity) *)
+Definition xpow (m : xR) (n : nat) : xR :=
+  match m with
+  | XFin r => XFin (r ^ n)
+  | XPInf => match n with O => XFin 1 | _ => XPInf end
+  | XNInf => match n with O => XFin 1 | _ => if Nat.even n then XPInf else XNInf end
+  end.
+(* a / m for a finite a (IEEE: a / +-inf = +-0).  For m = XFin 0 IEEE yields +-inf or nan, which no real number
+   represents: statements about xdiv are made for non-zero finite m only. *)
+Definition xdiv (a : R) (m : xR) : R := match m with XFin r => a / r | _ => 0 end.
+Definition Rltx (a : R) (m : xR) : Prop := match m with XFin r => a < r | XPInf => True | XNInf => False end.
+Definition Rgtx (a : R) (m : xR) : Prop := match m with XFin r => a > r | XPInf => False | XNInf => True end.
+Definition Rlex (a : R) (m : xR) : Prop := match m with XFin r => a <= r | XPInf => True | XNInf => False end.
+Definition Rgex (a : R) (m : xR) : Prop := match m with XFin r => a >= r | XPInf => False | XNInf => True end.
+Definition Rltx_dec a m : {Rltx a m} + {~ Rltx a m}.
+Proof. destruct m; cbn; [apply Rlt_dec | left; exact I | right; tauto]. Defined.
+Definition Rgtx_dec a m : {Rgtx a m} + {~ Rgtx a m}.
+Proof. destruct m; cbn; [apply Rgt_dec | right; tauto | left; exact I]. Defined.
+Definition Rlex_dec a m : {Rlex a m} + {~ Rlex a m}.
+Proof. destruct m; cbn; [apply Rle_dec | left; exact I | right; tauto]. Defined.
+Definition Rgex_dec a m : {Rgex a m} + {~ Rgex a m}.
+Proof. destruct m; cbn; [apply Rge_dec | right; tauto | left; exact I]. Defined.
